@@ -20,8 +20,11 @@ structure Inv (env : Env) (st : St) : Prop where
 /-- bytes of the input that have not been consumed -/
 def St.rest (env : Env) (st : St) : List Byte := env.bytes.drop st.offset
 
-/-- termination measure of every loop that calls `Shift` -/
+/-- termination measure of every loop that calls `Shift`: bytes of the input beyond the window, +1 until the
+end has been seen, + (length + 2) while still in mmap mode (the fall back to read() happens at most once and
+may throw the window away) -/
 def mu (env : Env) (st : St) : Nat :=
+  (if st.mode = .mmap then env.bytes.length + 2 else 0) +
   (env.bytes.length - (st.mappedOffset + st.win.length)) + (if st.atEnd then 0 else 1)
 
 theorem take_drop_window (l : List Byte) (mo len pos : Nat) :
@@ -98,7 +101,6 @@ structure ShiftPost (env : Env) (st st' : St) : Prop where
   inv : Inv env st'
   offset_eq : st'.offset = st.offset
   mu_lt : mu env st' < mu env st
-  vis_le : st.visible.length ≤ st'.visible.length
   nonempty_or_end : st'.visible ≠ [] ∨ st'.atEnd = true
 
 theorem readShift_post {env : Env} {st : St} (hfix : env.cfg.fixH = true) (h : Inv env st)
@@ -158,16 +160,18 @@ theorem readShift_post {env : Env} {st : St} (hfix : env.cfg.fixH = true) (h : I
     · rename_i hfull
       exact ⟨m1, e1, by omega, ro1, p1, r1, w1, o1, k1, by omega⟩
   obtain ⟨m2, e2, ms2, ro2, p2, r2, w2, o2, k2, l2⟩ := h2
+  generalize hwant : (if st2.hdrLeft > 0 then st2.hdrLeft else env.orc st2.readOff) = want
   have hrs : readShift env st =
       { st2 with win := st2.win ++ (env.bytes.drop st2.readOff).take
-                    (chunk env.orc st2.readOff (st2.mapSize - st2.win.length) (env.bytes.length - st2.readOff)),
-                 readOff := st2.readOff + chunk env.orc st2.readOff (st2.mapSize - st2.win.length) (env.bytes.length - st2.readOff),
-                 atEnd := st2.atEnd || chunk env.orc st2.readOff (st2.mapSize - st2.win.length) (env.bytes.length - st2.readOff) == 0 } := by
+                    (chunk (fun _ => want) st2.readOff (st2.mapSize - st2.win.length) (env.bytes.length - st2.readOff)),
+                 readOff := st2.readOff + chunk (fun _ => want) st2.readOff (st2.mapSize - st2.win.length) (env.bytes.length - st2.readOff),
+                 hdrLeft := st2.hdrLeft - chunk (fun _ => want) st2.readOff (st2.mapSize - st2.win.length) (env.bytes.length - st2.readOff),
+                 atEnd := st2.atEnd || chunk (fun _ => want) st2.readOff (st2.mapSize - st2.win.length) (env.bytes.length - st2.readOff) == 0 } := by
     unfold readShift
-    simp only [hs1, hs2]
+    simp only [hs1, hs2, hwant]
   rw [hrs]
-  generalize hn : chunk env.orc st2.readOff (st2.mapSize - st2.win.length) (env.bytes.length - st2.readOff) = n
-  have hnle := chunk_le env.orc st2.readOff (st2.mapSize - st2.win.length) (env.bytes.length - st2.readOff)
+  generalize hn : chunk (fun _ => want) st2.readOff (st2.mapSize - st2.win.length) (env.bytes.length - st2.readOff) = n
+  have hnle := chunk_le (fun _ => want) st2.readOff (st2.mapSize - st2.win.length) (env.bytes.length - st2.readOff)
   rw [hn] at hnle
   have hro_le : st2.readOff ≤ env.bytes.length := by rw [ro2, hro]; exact hir
   have hnpos : 0 < env.bytes.length - st2.readOff → 0 < n := by
@@ -180,7 +184,7 @@ theorem readShift_post {env : Env} {st : St} (hfix : env.cfg.fixH = true) (h : I
   have hlen : (st2.win ++ (env.bytes.drop st2.readOff).take n).length = st2.win.length + n := by
     simp [List.length_take]; omega
   have hinv : Inv env { st2 with win := st2.win ++ (env.bytes.drop st2.readOff).take n, readOff := st2.readOff + n,
-                                 atEnd := st2.atEnd || n == 0,
+                                 hdrLeft := st2.hdrLeft - n, atEnd := st2.atEnd || n == 0,
                                  ls1 := computeLs1 (st2.win ++ (env.bytes.drop st2.readOff).take n) st2.pos } := by
     refine { page_pos := hpp, pos_le := ?_, in_range := ?_, win_eq := ?_, atEnd_end := ?_, map_big := ?_,
              read_off := ?_, mmap_al := ?_, ls := ?_ }
@@ -201,18 +205,19 @@ theorem readShift_post {env : Env} {st : St} (hfix : env.cfg.fixH = true) (h : I
     · intro hmm; exact absurd (show st2.mode = .mmap from hmm) (by rw [m2]; decide)
     · apply LS_compute
       show st2.pos ≤ _; rw [hlen]; omega
-  refine { inv := hinv, offset_eq := ?_, mu_lt := ?_, vis_le := ?_, nonempty_or_end := ?_ }
+  refine { inv := hinv, offset_eq := ?_, mu_lt := ?_, nonempty_or_end := ?_ }
   · show st2.pos + st2.mappedOffset = st.offset; exact o2
   · unfold mu
-    show env.bytes.length - (st2.mappedOffset + _) + (if (st2.atEnd || n == 0) = true then 0 else 1) <
-      env.bytes.length - (st.mappedOffset + st.win.length) + (if st.atEnd = true then 0 else 1)
-    rw [hlen, he, e2]
+    show (if st2.mode = .mmap then env.bytes.length + 2 else 0) + (env.bytes.length - (st2.mappedOffset + _)) +
+        (if (st2.atEnd || n == 0) = true then 0 else 1) <
+      (if st.mode = .mmap then env.bytes.length + 2 else 0) + (env.bytes.length - (st.mappedOffset + st.win.length)) +
+        (if st.atEnd = true then 0 else 1)
+    rw [hlen, he, e2, m2, hm]
+    simp only [reduceCtorEq, ↓reduceIte]
     by_cases hz : n = 0
     · subst hz; simp; omega
     · have : (n == 0) = false := by simp [hz]
       simp [this]; omega
-  · show (st.win.drop st.pos).length ≤ ((st2.win ++ (env.bytes.drop st2.readOff).take n).drop st2.pos).length
-    rw [List.length_drop, List.length_drop, hlen]; omega
   · by_cases hz : n = 0
     · right; show (st2.atEnd || n == 0) = true; simp [hz]
     · left
@@ -223,24 +228,44 @@ theorem readShift_post {env : Env} {st : St} (hfix : env.cfg.fixH = true) (h : I
       simp at this; omega
 
 
+/-- both repairs that concern `Shift` -/
+def ShiftFixed (env : Env) : Prop := env.cfg.fixH = true ∧ env.cfg.fixF = true
+
+/-- `ReadShift` neither reads nor writes `last_space_` -/
+theorem readShift_ls1 (env : Env) (st : St) (a : Nat) :
+    readShift env { st with ls1 := a } = { readShift env st with ls1 := a } := by
+  unfold readShift
+  dsimp only
+  split <;> split <;> (try split) <;> rfl
+
+/-- two windows at the same `Offset()` agree on the bytes they both show -/
+theorem visible_common {env : Env} {st st' : St} (h : Inv env st) (h' : Inv env st') (ho : st'.offset = st.offset) :
+    st'.visible.take st.visible.length = st.visible.take st'.visible.length := by
+  have e : st'.rest env = st.rest env := by simp [St.rest, ho]
+  rw [h'.visible_eq, h.visible_eq, e, List.take_take, List.take_take, List.length_take, List.length_take]
+  congr 1
+  omega
+
 theorem mmapShift_eq (env : Env) (st : St) (g M' : Nat) (hg : g = st.offset % env.cfg.page)
     (hM : M' = if st.pos = g ∧ st.started then 2 * st.mapSize else st.mapSize) :
     mmapShift env st =
-      if M' ≥ env.bytes.length - (st.offset - g) then
-        if env.bytes.length - (st.offset - g) = 0 then
-          readShift env (transitionToRead { st with mapSize := M', atEnd := false } st.offset)
-        else
-          { st with mapSize := M', mappedOffset := st.offset - g,
-                    win := (env.bytes.drop (st.offset - g)).take (env.bytes.length - (st.offset - g)),
-                    pos := g, atEnd := true, started := true }
+      if env.bytes.length - (st.offset - g) = 0 ∨ env.mmapFail (st.offset - g) = true then
+        readShift env (transitionToRead
+          { st with mapSize := M', atEnd := false,
+                    mappedOffset := (if env.cfg.fixF then st.offset else st.mappedOffset) } st.offset)
+      else if M' ≥ env.bytes.length - (st.offset - g) then
+        { st with mapSize := M', mappedOffset := st.offset - g,
+                  win := (env.bytes.drop (st.offset - g)).take (env.bytes.length - (st.offset - g)),
+                  pos := g, atEnd := true, started := true }
       else
         { st with mapSize := M', mappedOffset := st.offset - g, win := (env.bytes.drop (st.offset - g)).take M',
                   pos := g, atEnd := false, started := true } := by
   subst hg hM; rfl
 
-theorem mmapShift_post {env : Env} {st : St} (hfix : env.cfg.fixH = true) (h : Inv env st)
+theorem mmapShift_post {env : Env} {st : St} (hfix : ShiftFixed env) (h : Inv env st)
     (hm : st.mode = .mmap) (he : st.atEnd = false) :
     ShiftPost env st { mmapShift env st with ls1 := computeLs1 (mmapShift env st).win (mmapShift env st).pos } := by
+  obtain ⟨hfixH, hfixF⟩ := hfix
   obtain ⟨hdvd, hst, hns⟩ := h.mmap_al hm
   have hpp := h.page_pos
   have hmb := h.map_big
@@ -262,52 +287,57 @@ theorem mmapShift_post {env : Env} {st : St} (hfix : env.cfg.fixH = true) (h : I
   have hMge : st.mapSize ≤ M' := by subst hM; split <;> omega
   rw [mmapShift_eq env st g M' hg.symm hM.symm]
   generalize hD : st.offset = D at *
-  have hvl : st.visible.length = st.win.length - st.pos := by simp [St.visible]
-  by_cases hA : M' ≥ env.bytes.length - (D - g)
-  · rw [if_pos hA]
-    by_cases hA1 : env.bytes.length - (D - g) = 0
-    · rw [if_pos hA1]
-      -- only the never-mapped empty file gets here
-      have hstarted : st.started = false := by
-        cases hs : st.started with
-        | false => rfl
-        | true => have := hst hs he; omega
-      obtain ⟨hw, hp0, hmo0⟩ := hns hstarted
-      have hD0 : D = 0 := by omega
-      have hlen0 : st.win.length = 0 := by simp [hw]
-      have htot : env.bytes.length = 0 := by omega
-      have hMeq : M' = st.mapSize := by subst hM; simp [hstarted]
-      have hinvt : Inv env (transitionToRead { st with mapSize := M', atEnd := false } D) := by
-        refine { page_pos := hpp, pos_le := by simp [transitionToRead], in_range := ?_, win_eq := by simp [transitionToRead],
-                 atEnd_end := by simp [transitionToRead], map_big := ?_, read_off := ?_, mmap_al := ?_, ls := ?_ }
-        · show st.mappedOffset + 0 ≤ _; omega
-        · show env.cfg.page < M'; omega
-        · intro _; show D = st.mappedOffset + 0 ∧ 0 ≤ M'; omega
-        · intro hc; exact absurd hc (by simp [transitionToRead])
-        · left
-          have hl := h.ls
-          rw [hw, hp0] at hl
-          refine ⟨?_, by simp [transitionToRead]⟩
-          show st.ls1 ≤ 0
-          rcases hl with ⟨a, _⟩ | ⟨a, b, _⟩
-          · exact a
-          · simp at b; omega
-      have hp := readShift_post hfix hinvt (by simp [transitionToRead]) (by simp [transitionToRead])
-      refine { inv := hp.inv, offset_eq := ?_, mu_lt := ?_, vis_le := ?_, nonempty_or_end := hp.nonempty_or_end }
-      · rw [hp.offset_eq]; simp [transitionToRead, St.offset]; omega
-      · have := hp.mu_lt
-        simp only [mu, transitionToRead] at this ⊢
-        simp only [he, hlen0] at this ⊢
-        simpa using this
-      · rw [hvl]; omega
-    · rw [if_neg hA1]
+  by_cases hA : env.bytes.length - (D - g) = 0 ∨ env.mmapFail (D - g) = true
+  · -- fall back to read(): the window is thrown away, the reader continues at `desired_begin`
+    rw [if_pos hA]
+    simp only [hfixF, ↓reduceIte]
+    generalize hX : transitionToRead { st with mapSize := M', atEnd := false, mappedOffset := D } D = X
+    have hXf : X.mode = .read ∧ X.atEnd = false ∧ X.win = [] ∧ X.pos = 0 ∧ X.mappedOffset = D ∧ X.readOff = D ∧
+        X.mapSize = M' := by subst hX; simp [transitionToRead]
+    obtain ⟨xm, xe, xw, xp, xo, xr, xs⟩ := hXf
+    have hinv0 : Inv env { X with ls1 := 0 } := by
+      refine { page_pos := hpp, pos_le := ?_, in_range := ?_, win_eq := ?_, atEnd_end := ?_, map_big := ?_,
+               read_off := ?_, mmap_al := ?_, ls := ?_ }
+      · show X.pos ≤ X.win.length; rw [xp]; exact Nat.zero_le _
+      · show X.mappedOffset + X.win.length ≤ _; rw [xo, xw]; simp; omega
+      · show X.win = _; rw [xw]; simp
+      · intro hc; exact absurd (show X.atEnd = true from hc) (by rw [xe]; decide)
+      · show env.cfg.page < X.mapSize; omega
+      · intro _; show X.readOff = X.mappedOffset + X.win.length ∧ X.win.length ≤ X.mapSize
+        rw [xr, xo, xw]; simp
+      · intro hc; exact absurd (show X.mode = .mmap from hc) (by rw [xm]; decide)
+      · left; exact ⟨by show 0 ≤ X.pos; omega, by show ∀ b ∈ X.win.drop X.pos, _; rw [xw]; simp⟩
+    have hp := readShift_post hfixH hinv0 (by show X.mode = .read; exact xm) (by show X.atEnd = false; exact xe)
+    rw [readShift_ls1] at hp
+    have hp : ShiftPost env { X with ls1 := 0 }
+        { readShift env X with ls1 := computeLs1 (readShift env X).win (readShift env X).pos } := hp
+    refine { inv := hp.inv, offset_eq := ?_, mu_lt := ?_, nonempty_or_end := hp.nonempty_or_end }
+    · have := hp.offset_eq
+      have e : ({ X with ls1 := 0 } : St).offset = X.pos + X.mappedOffset := rfl
+      rw [e, xp, xo] at this
+      first
+        | (rw [this]; done)
+        | (rw [this]; omega)
+    · refine Nat.lt_of_lt_of_le hp.mu_lt ?_
+      have hmuX : mu env { X with ls1 := 0 } ≤ env.bytes.length + 1 := by
+        simp only [mu]
+        show (if X.mode = .mmap then _ else 0) + _ + (if X.atEnd = true then 0 else 1) ≤ _
+        rw [xm, xe]; simp
+        first | omega | done
+      have hmust : env.bytes.length + 2 ≤ mu env st := by
+        simp only [mu, hm, ↓reduceIte]; omega
+      exact Nat.le_trans hmuX (by omega)
+  · rw [if_neg hA]
+    have hA1 : ¬ env.bytes.length - (D - g) = 0 := fun hc => hA (Or.inl hc)
+    by_cases hB : M' ≥ env.bytes.length - (D - g)
+    · rw [if_pos hB]
       have hDlt : D < env.bytes.length := by
         cases hs : st.started with
         | false => obtain ⟨hw, hp0, hmo0⟩ := hns hs; omega
         | true => have := hst hs he; omega
       have hlen : ((env.bytes.drop (D - g)).take (env.bytes.length - (D - g))).length = env.bytes.length - (D - g) := by
         simp [List.length_take]
-      refine { inv := ?_, offset_eq := ?_, mu_lt := ?_, vis_le := ?_, nonempty_or_end := ?_ }
+      refine { inv := ?_, offset_eq := ?_, mu_lt := ?_, nonempty_or_end := ?_ }
       · refine { page_pos := hpp, pos_le := ?_, in_range := ?_, win_eq := ?_, atEnd_end := ?_, map_big := ?_,
                  read_off := ?_, mmap_al := ?_, ls := ?_ }
         · show g ≤ _; rw [hlen]; omega
@@ -323,76 +353,60 @@ theorem mmapShift_post {env : Env} {st : St} (hfix : env.cfg.fixH = true) (h : I
         · apply LS_compute; show g ≤ _; rw [hlen]; omega
       · show g + (D - g) = st.offset; omega
       · simp only [mu]
-        show env.bytes.length - ((D - g) + _) + (if true = true then 0 else 1) < _
-        rw [hlen, he]; simp; omega
-      · rw [hvl]
-        show _ ≤ (List.drop g _).length
-        rw [List.length_drop, hlen]; omega
+        show (if st.mode = .mmap then _ else 0) + (env.bytes.length - ((D - g) + _)) + (if true = true then 0 else 1) < _
+        rw [hlen, he, hm]; simp; omega
       · left
         show List.drop g _ ≠ []
         intro hc
         have := congrArg List.length hc
         rw [List.length_drop, hlen] at this
         simp at this; omega
-  · rw [if_neg hA]
-    have hlen : ((env.bytes.drop (D - g)).take M').length = M' := by
-      simp [List.length_take]; omega
-    have hgrow : st.mappedOffset + st.win.length < (D - g) + M' := by
-      cases hs : st.started with
-      | false => obtain ⟨hw, hp0, hmo0⟩ := hns hs; have : st.win.length = 0 := by simp [hw]
-                 omega
-      | true =>
-        have := hst hs he
-        subst hM
-        by_cases hc : st.pos = g
-        · simp [hc, hs]; omega
-        · simp [hc]; omega
-    have hvis : st.win.length - st.pos ≤ M' - g := by
-      cases hs : st.started with
-      | false => obtain ⟨hw, hp0, hmo0⟩ := hns hs; have : st.win.length = 0 := by simp [hw]
-                 omega
-      | true =>
-        have := hst hs he
-        subst hM
-        by_cases hc : st.pos = g
-        · simp [hc, hs]; omega
-        · simp [hc]; omega
-    refine { inv := ?_, offset_eq := ?_, mu_lt := ?_, vis_le := ?_, nonempty_or_end := ?_ }
-    · refine { page_pos := hpp, pos_le := ?_, in_range := ?_, win_eq := ?_, atEnd_end := ?_, map_big := ?_,
-               read_off := ?_, mmap_al := ?_, ls := ?_ }
-      · show g ≤ _; rw [hlen]; omega
-      · show (D - g) + _ ≤ _; rw [hlen]; omega
-      · show _ = (env.bytes.drop (D - g)).take _; rw [hlen]
-      · intro hc; exact absurd (show false = true from hc) (by decide)
-      · show env.cfg.page < M'; omega
-      · intro hc; exact absurd (show st.mode = .read from hc) (by rw [hm]; decide)
-      · intro _
-        refine ⟨hmo_dvd, ?_, ?_⟩
-        · intro _ _; show _ = M' ∧ (D - g) + _ < _; rw [hlen]; omega
-        · intro hc; exact absurd (show true = false from hc) (by decide)
-      · apply LS_compute; show g ≤ _; rw [hlen]; omega
-    · show g + (D - g) = st.offset; omega
-    · simp only [mu]
-      show env.bytes.length - ((D - g) + _) + (if false = true then 0 else 1) < _
-      rw [hlen, he]; simp; omega
-    · rw [hvl]
-      show _ ≤ (List.drop g _).length
-      rw [List.length_drop, hlen]; omega
-    · left
-      show List.drop g _ ≠ []
-      intro hc
-      have := congrArg List.length hc
-      rw [List.length_drop, hlen] at this
-      simp at this; omega
+    · rw [if_neg hB]
+      have hlen : ((env.bytes.drop (D - g)).take M').length = M' := by
+        simp [List.length_take]; omega
+      have hgrow : st.mappedOffset + st.win.length < (D - g) + M' := by
+        cases hs : st.started with
+        | false => obtain ⟨hw, hp0, hmo0⟩ := hns hs; have : st.win.length = 0 := by simp [hw]
+                   omega
+        | true =>
+          have := hst hs he
+          subst hM
+          by_cases hc : st.pos = g
+          · simp [hc, hs]; omega
+          · simp [hc]; omega
+      refine { inv := ?_, offset_eq := ?_, mu_lt := ?_, nonempty_or_end := ?_ }
+      · refine { page_pos := hpp, pos_le := ?_, in_range := ?_, win_eq := ?_, atEnd_end := ?_, map_big := ?_,
+                 read_off := ?_, mmap_al := ?_, ls := ?_ }
+        · show g ≤ _; rw [hlen]; omega
+        · show (D - g) + _ ≤ _; rw [hlen]; omega
+        · show _ = (env.bytes.drop (D - g)).take _; rw [hlen]
+        · intro hc; exact absurd (show false = true from hc) (by decide)
+        · show env.cfg.page < M'; omega
+        · intro hc; exact absurd (show st.mode = .read from hc) (by rw [hm]; decide)
+        · intro _
+          refine ⟨hmo_dvd, ?_, ?_⟩
+          · intro _ _; show _ = M' ∧ (D - g) + _ < _; rw [hlen]; omega
+          · intro hc; exact absurd (show true = false from hc) (by decide)
+        · apply LS_compute; show g ≤ _; rw [hlen]; omega
+      · show g + (D - g) = st.offset; omega
+      · simp only [mu]
+        show (if st.mode = .mmap then _ else 0) + (env.bytes.length - ((D - g) + _)) + (if false = true then 0 else 1) < _
+        rw [hlen, he, hm]; simp; omega
+      · left
+        show List.drop g _ ≠ []
+        intro hc
+        have := congrArg List.length hc
+        rw [List.length_drop, hlen] at this
+        simp at this; omega
 
 /-- `Shift()` on a state that has not seen the end succeeds and makes progress. -/
-theorem shift_post {env : Env} {st : St} (hfix : env.cfg.fixH = true) (h : Inv env st) (he : st.atEnd = false) :
+theorem shift_post {env : Env} {st : St} (hfix : ShiftFixed env) (h : Inv env st) (he : st.atEnd = false) :
     ∃ st', shift env st = .ok st' ∧ ShiftPost env st st' := by
   unfold shift
   simp only [he, Bool.false_eq_true, ↓reduceIte]
   cases hm : st.mode with
   | mmap => exact ⟨_, rfl, mmapShift_post hfix h hm he⟩
-  | read => exact ⟨_, rfl, readShift_post hfix h hm he⟩
+  | read => exact ⟨_, rfl, readShift_post hfix.1 h hm he⟩
 
 theorem shift_atEnd {env : Env} {st : St} (he : st.atEnd = true) : shift env st = .error .eof := by
   simp [shift, he]
